@@ -244,7 +244,9 @@ class DiagnosticsRenderer:
             span = to_span(diag.span)
             level = self.level_str(diag.level)
             all_spans = [span] + [
-                to_span(child.span) for child in diag.children if child.span
+                to_span(child.span)
+                for child in diag.children
+                if child.span is not None
             ]
             max_lineno = max(s.end.line for s in all_spans)
             self.buffer.append(f"{level}: {diag.rendered_title} (at {span.start})")
@@ -257,7 +259,7 @@ class DiagnosticsRenderer:
             )
             # First render all sub-diagnostics that come with a span
             for sub_diag in diag.children:
-                if sub_diag.span:
+                if sub_diag.span is not None:
                     self.render_snippet(
                         to_span(sub_diag.span),
                         sub_diag.rendered_span_label,
@@ -408,7 +410,7 @@ class MietteRenderer:
         spans = []
         source_text = None
 
-        if diag.span:
+        if diag.span is not None:
             main_span = to_span(diag.span)
 
             # Get entire file directly from sources
@@ -429,7 +431,7 @@ class MietteRenderer:
         other_messages = []
 
         for child in diag.children:
-            if child.span and source_text:
+            if child.span is not None and source_text:
                 child_span = to_span(child.span)
                 start_offset = self._calculate_offset(child_span.start, source_text)
                 end_offset = self._calculate_offset(child_span.end, source_text)
